@@ -74,8 +74,9 @@ func main() {
 		sa := fs.Int("start-after", -1, "")
 		gen := fs.Int("gen", 0, "")
 		limit := fs.Int("limit", -1, "")
+		dir := fs.String("dir", "", "")
 		fs.Parse(os.Args[3:])
-		os.Exit(runWorker(def, *tier, *seed, *w, *nw, *sa, *gen, *limit))
+		os.Exit(runWorker(def, *tier, *seed, *w, *nw, *sa, *gen, *limit, *dir))
 	case "replay":
 		if len(os.Args) < 3 {
 			usage()
